@@ -521,3 +521,69 @@ Section IterProofs.
   Proof. intros H. inversion H as [|m0 ms0 Hw Hc]; subst. split; [reflexivity|]. split; assumption. Qed.
 
 End IterProofs.
+
+(* direction-specific reading of "b follows a": left-to-right start indexes strictly increase and
+   b begins at or after a's end; right-to-left END positions strictly decrease and b ends at or
+   before a's start; after an empty match the next match is not the same empty match *)
+Definition follows (rtl : bool) (a b : mt) : Prop :=
+  (if rtl
+   then m_index b + m_length b < m_index a + m_length a /\ m_index b + m_length b <= m_index a
+   else m_index a < m_index b /\ m_index a + m_length a <= m_index b)
+  /\ (m_length a = 0 -> ~ (m_index b = m_index a /\ m_length b = 0)).
+
+
+Lemma next_advances_follows :
+  forall rtl len attempt, forward rtl len attempt ->
+  forall m, wfm rtl len m ->
+    find_next_match rtl len attempt (dflt_fuel len) m = Ok (next_p rtl len attempt m) /\
+    forall m', next_p rtl len attempt m = Some m' -> wfm rtl len m' /\ follows rtl m m'.
+Proof.
+  intros rtl len attempt Hfw m Hw. split.
+  - apply find_next_ok; exact Hw.
+  - intros m' Hn. destruct (next_advances_gen rtl len attempt Hfw m m' Hw Hn) as (Hw' & H1 & H2 & H3).
+    split; [exact Hw'|].
+    destruct Hw as [_ (Hl & _ & Hd)]. destruct Hw' as [_ (Hl' & _ & Hd')].
+    unfold follows, m_start, bump in *. destruct rtl; (split; [lia | intros Hz; specialize (H3 Hz); lia]).
+Qed.
+
+Lemma iteration_bound_and_order :
+  forall rtl len attempt, forward rtl len attempt ->
+  forall start, 0 <= start <= len ->
+  exists ms, iteration rtl len attempt (dflt_fuel len) (dflt_fuel len) start = Ok ms /\
+             Z.of_nat (length ms) <= len + 1 /\
+             Forall (wfm rtl len) ms /\
+             forall a b, consecutive ms a b -> follows rtl a b.
+Proof.
+  intros rtl len attempt Hfw start Hs.
+  destruct (iteration_ok rtl len attempt Hfw start Hs) as (ms & Hi & Hc & Hl).
+  exists ms. split; [exact Hi|]. split; [lia|]. split; [eapply chain_wf; eauto|].
+  intros a b Hab. destruct (chain_consecutive rtl len attempt ms _ a b Hc Hab) as [Hw Hn].
+  destruct (next_advances_follows rtl len attempt Hfw a Hw) as [_ H]. apply (H b Hn).
+Qed.
+
+(* ---------------- a concrete matcher for the non-vacuity examples: a* on "baaab" ---------------- *)
+Definition ex_text : list Z := [98; 97; 97; 97; 98].
+Fixpoint count_a (l : list Z) : Z :=
+  match l with
+  | 97 :: l' => 1 + count_a l'
+  | _ => 0
+  end.
+(* greedy a* anchored at p, scanning right / scanning left *)
+Definition ex_ltr (_ p : Z) : option mt :=
+  let k := count_a (skipn (Z.to_nat p) ex_text) in Some (MkM p k (p + k) [Some (p, k)]).
+Definition ex_rtl (_ p : Z) : option mt :=
+  let k := count_a (rev (firstn (Z.to_nat p) ex_text)) in Some (MkM (p - k) k (p - k) [Some (p - k, k)]).
+
+Lemma ex_ltr_forward : forward false 5 ex_ltr.
+Proof.
+  intros ts p m Hp H.
+  assert (p = 0 \/ p = 1 \/ p = 2 \/ p = 3 \/ p = 4 \/ p = 5) as Hc by lia.
+  destruct Hc as [->|[->|[->|[->|[->| ->]]]]]; vm_compute in H; inversion H; subst; vm_compute; intuition discriminate.
+Qed.
+Lemma ex_rtl_forward : forward true 5 ex_rtl.
+Proof.
+  intros ts p m Hp H.
+  assert (p = 0 \/ p = 1 \/ p = 2 \/ p = 3 \/ p = 4 \/ p = 5) as Hc by lia.
+  destruct Hc as [->|[->|[->|[->|[->| ->]]]]]; vm_compute in H; inversion H; subst; vm_compute; intuition discriminate.
+Qed.
+
